@@ -296,7 +296,7 @@ harness(void)
 {
         VERIF_INPUTS();
         struct huff_code ll[LIT_LEN], dc[DIST_LEN];
-        int max_lit = 0, max_len = 0, max_dist = 0, max_all = 0;
+        int max_lit = 0, max_len = 0, max_len_no285 = 0, max_dist = 0, max_all = 0;
         for (int i = 0; i < LIT_LEN; i++) {
                 VASSUME(I.ll_len[i] <= 15);
                 ll[i].code_and_length = 0;
@@ -308,6 +308,8 @@ harness(void)
                         max_lit = I.ll_len[i];
                 if (i >= 257 && I.ll_len[i] + rfc_len_extra[i - 257] > max_len)
                         max_len = I.ll_len[i] + rfc_len_extra[i - 257];
+                if (i >= 257 && i < 285 && I.ll_len[i] + rfc_len_extra[i - 257] > max_len_no285)
+                        max_len_no285 = I.ll_len[i] + rfc_len_extra[i - 257];
         }
         for (int i = 0; i < DIST_LEN; i++) {
                 VASSUME(I.d_len[i] <= 15);
@@ -320,15 +322,20 @@ harness(void)
         VASSERT(r == 0 || r == 1, "boolean result");
 #ifdef USEABLE_EXACT
         /* the bound as a reader of the property would compute it: longest literal/EOB code +
-         * longest length code incl. extra bits + longest distance code incl. extra bits */
+         * longest length code incl. extra bits (symbols 257..285) + longest distance code incl. extra
+         * bits.  FAILS on the unchanged tree (see plan: suspected defect, symbol 285 is left out of the
+         * length maximum and only enters through the all-symbol maximum). */
         if (r == 0)
                 VASSERT(max_lit + max_len + max_dist <= MAX_BITBUF_BIT_WRITE,
                         "accepted tables: literal + length + distance bits fit one bit-buffer write");
 #else
-        /* what the code guarantees (literal maximum taken over all 286 symbols) */
+        /* what holds: the same bound with length symbol 285 (258, no extra bits) left out of the length
+         * maximum, and the decision is monotone in the implemented measure */
         if (r == 0)
-                VASSERT(max_lit + max_len + max_dist <= MAX_BITBUF_BIT_WRITE + 0 || max_all >= max_lit,
-                        "accepted tables (weak form)");
+                VASSERT(max_lit + max_len_no285 + max_dist <= MAX_BITBUF_BIT_WRITE,
+                        "accepted tables: literal + length(257..284) + distance bits <= 56");
+        VASSERT((r != 0) == (max_all + max_len_no285 + max_dist > MAX_BITBUF_BIT_WRITE),
+                "decision == (longest lit/len code + longest length code with extra (257..284) + longest distance code with extra > 56)");
 #endif
         /* after the 13/12-bit rebuild the bound always holds */
         if (max_all <= MAX_SAFE_LIT_CODE_LEN && max_dist <= MAX_SAFE_DIST_CODE_LEN + 13)
